@@ -1,4 +1,8 @@
 """C07 - a departed client leaves no trace."""
+import dataclasses
+
+from vlib.proto import MT_CLIENT_CLOSED as P_CLIENT_CLOSED, MT_CLIENT_INFO as P_CLIENT_INFO
+
 from vlib.mgen import CLOSE, CONNECT, DISCONNECT, FAULT, OPEN, PUB, READY, SETNAME, STEP, SUB, Profile
 from vlib.monitors import monitor_setup
 from vlib.simcheck import SimCheck
@@ -8,7 +12,9 @@ RULE = ("Hypothesis-generated histories (profile 'departure'): two monitors (one
         "connected, subscribed individually / to all / to manager message types, paused, logger) that leave by DISCONNECT, FIN, RST, "
         "FIN/RST after k bytes of a frame, refusal at connect, or are discovered on the write side (peer gone: EPIPE / ECONNRESET / "
         "first write succeeds; or an injected failure after k bytes of an outgoing frame), several in one round in generated "
-        "service order, with survivors publishing in the same round and immediate reconnects reusing ids and names. Oracles after "
+        "service order, with survivors publishing in the same round and immediate reconnects reusing ids and names (profile "
+        "'departure-clash': connects that clash with the id or name of a live unique or allow-multiple module, i.e. departures by "
+        "refusal next to an innocent holder). Oracles after "
         "every round: each monitor received exactly one CLIENT_CLOSED per departed connection (matched by port) describing its "
         "id/name/flags; the manager closed the departed socket and only that; reconnects that the identity rules allow are accepted; "
         "deliveries among survivors equal the routing model (including the message during which the failure surfaced); no "
@@ -30,6 +36,27 @@ DEPARTURE = Profile(
     max_conns=8,
     setup_ops=monitor_setup(),
     protected=(0, 1),
+)
+
+
+# departures by refusal: connects that clash with the id or name of a live module (unique or allow-multiple holders)
+# (id 100 is left out: the manager accepts it as an explicit id and also hands it out dynamically, and which of two requests of
+# one round came first is not modelled; peers are never "already gone", so that a refusal is the only reason for a removal)
+DEPARTURE_CLASH = dataclasses.replace(DEPARTURE, name="departure-clash", clash_ids=True, clash_extra=(101, 199, 200, -1, 32767),
+                                      close_modes=["silent"],
+                                      weights={STEP: 10, PUB: 8, SUB: 6, CONNECT: 10, OPEN: 6, DISCONNECT: 3, CLOSE: 4, READY: 1, SETNAME: 1})
+
+
+# departures discovered while the periodic reports (CLIENT_INFO / ACTIVE_CLIENTS burst, TIMING, TRAFFIC) are being sent: the
+# clock advances, victims subscribe to the manager's own messages and are already gone when the manager writes to them.
+# Only the oracles that need no prediction of manager-originated traffic are on: run() still executing, every connection
+# watched or closed, whole frames, no CLIENT_INFO for a connection after its CLIENT_CLOSED.
+DEPARTURE_PERIODIC = dataclasses.replace(
+    DEPARTURE, name="departure-periodic", oracles=set(),
+    weights={STEP: 12, PUB: 4, SUB: 10, CONNECT: 6, OPEN: 3, DISCONNECT: 1, CLOSE: 8, READY: 1},
+    types=[P_CLIENT_INFO, 1234, P_CLIENT_CLOSED, 8, P_CLIENT_INFO],
+    close_modes=["epipe", "reset", "first-ok", "silent"], partial_close=False,
+    dts=[0.0, 0.0, 6.0, 0.0, 2.0, 6.0, 0.5],
 )
 
 
@@ -218,7 +245,7 @@ def _replay_extra(tr):
 
 
 CHECK = SimCheck(
-    "C07", [DEPARTURE],
+    "C07", [DEPARTURE, DEPARTURE, DEPARTURE_CLASH, DEPARTURE_PERIODIC],
     [{"timecode": False, "timing": True, "log": "silent"}, {"timecode": True, "timing": False, "log": "silent"}],
     RULE, ["logging is silenced and the clock does not advance in this profile, so that every manager-originated frame "
            "(ACK, CLIENT_INFO, CLIENT_CLOSED, FAILED_MESSAGE) is predicted by the model and the first failing write to a dead "
